@@ -23,7 +23,7 @@ def parseFor (side : Nat) (ext : Bool) (bs : Bytes) (max : Nat := 0) (skip : Boo
   let (fs, tl) := match tl0 with
     | .cutPayload f _ => if max > 0 ∧ f.h.len > max then (fs0 ++ [f], Tail.clean) else (fs0, tl0)
     | _ => (fs0, tl0)
-  let fbRule := if skip then none else firstBad side ext false 0 fs
+  let fbRule := if skip then firstBadExt ext 0 fs else firstBad side ext false 0 fs
   let fbBig := firstBig max 0 fs
   let fb := optMin fbRule fbBig
   { frames := fs, tail := tl, us := unitsIdx (units fs none []), fb := fb,
@@ -285,10 +285,12 @@ def rdrOracle (a : List String) (obs : String) : String :=
     -- with SkipHeaderCheck the rule set is off: streams breaking a rule are judged by the model only
     let p := parseFor (natOr st) c.ext (hexOr hex) c.max c.skip
     let ruleBad := firstBad (natOr st) c.ext false 0 p.frames
-    if c.skip && (match ruleBad, p.big with
-        | some i, some j => decide (i < j)
-        | some _, none => true
-        | none, _ => false) then "skip" else
+    -- (… unless the first thing wrong is the attached extension's own rule, which SkipHeaderCheck does not lift)
+    let extBad := firstBadExt c.ext 0 p.frames
+    let before (i : Nat) (o : Option Nat) : Bool := match o with | some j => decide (i < j) | none => true
+    if c.skip && (match ruleBad with
+        | some i => before i p.big && before i extBad
+        | none => false) then "skip" else
     match obs.splitOn " inter=" with
     | [itemsS, rest] =>
       let items := itemsS.splitOn ";"
